@@ -317,6 +317,12 @@ def write_evidence(pid, tier, level, coverage, wall, violations, assumptions):
     with open(tmp, "w") as fh:
         json.dump(ev, fh, indent=1, sort_keys=True, default=str)
     os.replace(tmp, os.path.join(EVID, pid + ".json"))
+    if tier == "thorough" and not os.environ.get("VERIF_REPO"):
+        # keep a record of what the deep tier covered (evidence/<id>.json is rewritten by every run)
+        d = os.path.join(VERIF, "gen", "thorough")
+        os.makedirs(d, exist_ok=True)
+        with open(os.path.join(d, pid + ".json"), "w") as fh:
+            json.dump(ev, fh, indent=1, sort_keys=True, default=str)
 
 
 def save_replay(pid, name, files):
